@@ -120,7 +120,11 @@ def build(sc):
     cont = reg in ("big-continue", "tiny-continue") or (reg == "cap" and rnd.random() < 0.5)
     if reg == "cap":
         cap = rnd.choice([6, 10, 15])
-    m.set_simulation_parameters(num_months=sc["months"], max_eft=35.0, min_eft=5.0, max_height=hmax, min_height=hmin, max_boreholes=cap, continue_if_design_unmet=cont)
+    # temperature limits: the usual 35 / 5 C and others, including a limit of exactly 0 C (freeze limit of a water loop) and a negative one
+    by_kind = {"balanced": [(35.0, 0.0), (35.0, 5.0), (30.0, 0.0)], "heating": [(35.0, 5.0), (35.0, 0.0), (35.0, -2.0)], "cooling": [(35.0, 5.0), (32.0, 5.0), (40.0, 0.0)],
+               "spiky": [(35.0, 0.0), (35.0, 5.0)], "constant": [(35.0, 5.0), (40.0, 0.0)]}[sc["kind"]]
+    max_eft, min_eft = by_kind[(sc["id"] // 5) % len(by_kind)]
+    m.set_simulation_parameters(num_months=sc["months"], max_eft=max_eft, min_eft=min_eft, max_height=hmax, min_height=hmin, max_boreholes=cap, continue_if_design_unmet=cont)
     amp = {"normal": u(2500, 7000), "cap": u(4000, 9000), "small": u(600, 1500), "tiny-continue": u(20, 60), "big-stop": u(1.5e5, 3e5), "big-continue": u(1.5e5, 3e5), "rw-bisect": 12400.0, "rw-removal": u(3500, 9000), "no-count": u(2500, 7000)}[reg]
     m.set_ground_loads_from_hourly_list(profile(amp, sc["kind"], rnd))
     meth = sc["method"]
@@ -148,7 +152,7 @@ def build(sc):
     vb = round(u(0.15, 0.5), 3)
     fr = vb if sc["flow"] == "BOREHOLE" else round(vb * rnd.choice([8, 15, 25]), 3)
     m.set_design(flow_rate=fr, flow_type_str=sc["flow"])
-    info = {"method": meth, "flow": sc["flow"], "V_dmLps": clip(fr * 1e4), "maxAllow_uK": uK(35.0), "minAllow_uK": uK(5.0), "Hmin_mm": mm(hmin), "Hmax_mm": mm(hmax),
+    info = {"method": meth, "flow": sc["flow"], "V_dmLps": clip(fr * 1e4), "maxAllow_uK": uK(max_eft), "minAllow_uK": uK(min_eft), "Hmin_mm": mm(hmin), "Hmax_mm": mm(hmax),
             "cap": cap or 0, "cont": bool(cont), "months": sc["months"]}
     return m, info
 
@@ -352,7 +356,11 @@ def record_run(sc):
 
 
 def corpus(t: str, seed: int):
-    key = f"{repo_fingerprint()}-{t}-{seed}"
+    import hashlib  # noqa: PLC0415
+
+    # the recorded runs depend on the scenarios and the recorder defined in this file as well as on the repository
+    own = hashlib.sha256(Path(__file__).read_bytes()).hexdigest()[:8]
+    key = f"{repo_fingerprint()}-{own}-{t}-{seed}"
     cdir = BUILD / "corpus"
     cdir.mkdir(parents=True, exist_ok=True)
     f = cdir / f"{key}.json"
